@@ -38,6 +38,7 @@ structure St where
   tree : TS := .absent
   parked : List Nat := []
   delivered : List Nat := []    -- handed to the instance addressed by the message's token
+  refused : List Nat := []      -- ghost: refused with an error inside the region (`bad` messages)
   arrived : List Nat := []      -- ghost: every envelope handed to the dispatcher
   thr : List Th := []
   flushes : Nat := 0            -- flush goroutines spawned and not yet run
@@ -54,10 +55,17 @@ inductive Act where
   | expire
   deriving Repr
 
+/-- messages numbered 1000 and above carry a token that names no node of the tree: `TransmitMsg`
+answers them with an error ("No TreeNode defined in this tree here") and they are gone -/
+def bad (m : Nat) : Bool := 1000 ≤ m
+
 def stepTh (s : St) (i : Nat) (t : Th) : St :=
   match t.pc with
   | .lookup =>
       if s.tree = .present then
+        if bad t.m then
+          { s with refused := s.refused ++ [t.m], thr := s.thr.set i { t with pc := .done } }
+        else
         { s with delivered := s.delivered ++ [t.m], inst := true, thr := s.thr.set i { t with pc := .done } }
       else { s with thr := s.thr.set i { t with pc := .park } }
   | .park => { s with parked := s.parked ++ [t.m], thr := s.thr.set i { t with pc := .recheck } }
